@@ -1,24 +1,26 @@
 #!/bin/bash
-# usage: tools/allseeds.sh [seed-id-regex]   -- applies every stored seeded change to /repo in turn, runs the property's quick check, reverts.
-# Prints one line per seed: DETECTED (exit 1 with a VIOLATION line) / MISSED (exit 0) / NOAPPLY / OTHER.  Exit 0 iff every seed is detected.
+# usage: tools/allseeds.sh [seed-id-regex]   (JOBS=n parallel workers, default 4)
+# Applies every stored seeded change (seeded/<id>/patch.diff, or patch.rebased.diff where a later fix: commit rewrote the site) to its own scratch worktree
+# of /repo's HEAD (under /tmp, removed afterwards; /repo itself is never touched), runs the property's quick check against it (VERIF_REPO) and prints one
+# line per seed: DETECTED (exit 1 with a VIOLATION line) / MISSED (exit 0) / NOAPPLY / OTHER / OBSOLETE.  Exit 0 iff every applicable seed is detected.
 cd "$(dirname "$0")/.."
-pat=${1:-.}
-R=${SEED_REPO:-/repo}; export VERIF_REPO=$R
-rc=0
-if ! git -C $R diff --quiet; then echo "repo dirty"; exit 9; fi
-for d in seeded/*/; do
-  id=$(basename $d); echo "$id" | grep -Eq "$pat" || continue
+pat=${1:-.}; JOBS=${JOBS:-4}
+one() {
+  d=$1; id=$(basename $d)
   prop=$(python3 -c "import json;print(json.load(open('$d/meta.json'))['property'])")
-  if python3 -c "import json,sys; sys.exit(0 if json.load(open('$d/meta.json')).get('status','').startswith('obsolete') else 1)"; then echo "OBSOLETE $id"; continue; fi
-  patch=$d/patch.diff; [ -f $d/patch.rebased.diff ] && patch=$d/patch.rebased.diff
-  if ! git -C $R apply --check $PWD/$patch 2>/dev/null; then
-     if git -C $R apply --3way $PWD/$patch >/dev/null 2>&1; then :; else echo "NOAPPLY  $id"; git -C $R reset -q --hard HEAD; rc=1; continue; fi
-  else git -C $R apply $PWD/$patch; fi
-  out=$(./check $prop 2>&1); ec=$?
-  git -C $R reset -q --hard HEAD
+  if python3 -c "import json,sys; sys.exit(0 if json.load(open('$d/meta.json')).get('status','').startswith('obsolete') else 1)"; then echo "OBSOLETE $id"; return; fi
+  patch=$PWD/$d/patch.diff; [ -f $d/patch.rebased.diff ] && patch=$PWD/$d/patch.rebased.diff
+  WT=/tmp/allseeds_wt_$$_$id; git -C /repo worktree add -q --detach $WT HEAD 2>/dev/null || { echo "OTHER(worktree) $id"; return; }
+  if ! git -C $WT apply $patch 2>/dev/null && ! git -C $WT apply --3way $patch >/dev/null 2>&1; then echo "NOAPPLY  $id"; git -C /repo worktree remove --force $WT; return; fi
+  out=$(VERIF_REPO=$WT ./check $prop 2>&1); ec=$?
+  git -C /repo worktree remove --force $WT
   nv=$(echo "$out" | grep -c "^VIOLATION")
-  if [ $ec -eq 1 ] && [ $nv -gt 0 ]; then echo "DETECTED $id ($nv violation lines)"; 
-  elif [ $ec -eq 0 ]; then echo "MISSED   $id"; rc=1
-  else echo "OTHER($ec) $id"; rc=1; fi
-done
-exit $rc
+  if [ $ec -eq 1 ] && [ $nv -gt 0 ]; then echo "DETECTED $id ($nv violation lines)"
+  elif [ $ec -eq 0 ]; then echo "MISSED   $id"
+  else echo "OTHER($ec) $id"; fi
+}
+export -f one
+ls -d seeded/*/ | sed 's#/$##' | grep -E "$pat" | xargs -P $JOBS -I{} bash -c 'one {}' | tee /tmp/allseeds_$$.out
+git -C /repo worktree prune
+bad=$(grep -cvE "^DETECTED|^OBSOLETE" /tmp/allseeds_$$.out); rm -f /tmp/allseeds_$$.out
+[ "$bad" -eq 0 ]
